@@ -24,8 +24,8 @@ type cliObs struct {
 }
 
 func randomCliTree(rng *rand.Rand) []cliEntry {
-	fileCls := []string{"xml", "xml", "xmlbad", "xmlent", "json", "html", "txtjson", "noext", "dangling", "linkxml", "svg"}
-	ext := map[string]string{"xml": ".xml", "xmlbad": ".xml", "xmlent": ".xml", "json": ".json", "html": ".html", "txtjson": ".txt", "noext": "", "dangling": ".xml", "linkxml": ".xml", "svg": ".svg"}
+	fileCls := []string{"xml", "xml", "xmlbad", "xmlent", "json", "html", "txtjson", "noext", "dangling", "linkxml", "svg", "missing"}
+	ext := map[string]string{"xml": ".xml", "xmlbad": ".xml", "xmlent": ".xml", "json": ".json", "html": ".html", "txtjson": ".txt", "noext": "", "dangling": ".xml", "linkxml": ".xml", "svg": ".svg", "missing": ".xml"}
 	var tree []cliEntry
 	n := 0
 	var add func(in, depth int)
@@ -40,6 +40,9 @@ func randomCliTree(rng *rand.Rand) []cliEntry {
 			return
 		}
 		c := fileCls[rng.Intn(len(fileCls))]
+		if c == "missing" && in != 0 {
+			c = "xml" // a path that does not exist only makes sense as an argument
+		}
 		// (file names with characters that matter to formatting verbs, shells and prefixes)
 		stem := []string{"f", "f", "f", "p%20q%s", "a b", "x%d"}[rng.Intn(6)]
 		tree = append(tree, cliEntry{Name: fmt.Sprintf("%s%d%s", stem, n, ext[c]), Cls: c, In: in})
@@ -93,6 +96,7 @@ func init() {
 					os.MkdirAll(full, 0o755)
 				case "dangling":
 					os.Symlink(filepath.Join(dir, "does-not-exist"), full)
+				case "missing":
 				case "linkxml":
 					target := filepath.Join(work, fmt.Sprintf("t%d-%d-%d.xml", a.sub, k, i))
 					os.WriteFile(target, []byte(cliContent(e.Cls, tag)), 0o644)
@@ -157,7 +161,7 @@ func init() {
 				}
 				pt := fl.T
 				if pt == "" {
-					pt = map[string]string{"xml": "xml", "xmlbad": "xml", "xmlent": "xml", "dangling": "xml", "linkxml": "xml", "svg": "xml", "json": "json", "html": "html"}[e.Cls]
+					pt = map[string]string{"xml": "xml", "xmlbad": "xml", "xmlent": "xml", "dangling": "xml", "missing": "xml", "linkxml": "xml", "svg": "xml", "json": "json", "html": "html"}[e.Cls]
 				}
 				var cur xsel.Cursor
 				var rerr error = fmt.Errorf("no type")
